@@ -19,6 +19,9 @@ VARIABLE i
 EventsPerStep == 1000
 WorkBound(n, d) == 5000 + (EventsPerStep * ((2 * n) + 2) * (d + 1))
 
+\* peak memory allowed while decoding n octets: a constant plus a multiple of the input length
+MemBound(n, d) == 1000000 + (4096 * n * (d + 1))
+
 V(k, verdict, detail) == [vi |-> k, codec |-> "", ne |-> FALSE, check |-> "FUZZ", verdict |-> verdict, detail |-> detail]
 
 ObsVerdict(L, k) ==
@@ -26,6 +29,7 @@ ObsVerdict(L, k) ==
   IF o.st = "budget" THEN V(k, "reject", "dec-budget@" \o o.site)
   ELSE IF o.st = "timeout" THEN V(k, "reject", "dec-timeout@" \o o.site)
   ELSE IF o.ev > WorkBound(o.n, L.depth) THEN V(k, "reject", "dec-work@" \o o.site)
+  ELSE IF o.mem > MemBound(o.n, L.depth) THEN V(k, "reject", "dec-memory:" \o o.cls \o "@" \o o.site)
   ELSE V(k, "ok", "")
 
 LineReport(L) ==
